@@ -20,7 +20,8 @@ Fixpoint tk (skip_first skip_last : bool) (s : str) (i : nat) (cur : option (nat
   | [] =>
       match cur with
       | Some (st, t) =>
-          if negb skip_last && Nat.ltb 1 (length t) && negb (is_star_opt prec) then [rev t] else []
+          if negb skip_last && (negb (Nat.eqb st 0) || negb skip_first) && Nat.ltb 1 (length t)
+             && negb (is_star_opt prec) then [rev t] else []
       | None => []
       end
   | c :: r =>
